@@ -95,6 +95,35 @@ def cmdExec (expandRaises : Bool) (cap : Cap) (saveOut : Option Nat) (rc : Int) 
   | .ok, some k => ⟨oc, res, [(k, outV)]⟩
   | _, _ => ⟨oc, res, []⟩
 
+/-! ### decoding of the captured bytes (`CmdAction._print_process_output`)
+
+The repaired code (F-C17c, c208dcd) feeds every read into one incremental decoder, so the captured text is the
+decoding of the *whole* byte stream whatever the `buffering` value: `cmdDecode`.  The pinned code decoded every
+`buffering`-byte read on its own: `cmdDecodePinned`.  Real UTF-8 decoding is trusted (Python's codec); `decLite`
+is a two-byte-sequence fragment of it (ASCII, `C2..DF` + continuation byte, else U+FFFD), enough to exhibit the
+difference. -/
+
+def decLite : List Nat → List Nat
+  | [] => []
+  | [b] => if b < 128 then [b] else [65533]
+  | b :: c :: rest =>
+    if b < 128 then b :: decLite (c :: rest)
+    else if 194 ≤ b ∧ b ≤ 223 ∧ 128 ≤ c ∧ c ≤ 191 then ((b - 192) * 64 + (c - 128)) :: decLite rest
+    else 65533 :: decLite (c :: rest)
+
+/-- the reads of `input_.read(n)` until EOF (`fuel` bounds the recursion; `bytes.length` suffices) -/
+def chunksOf (n : Nat) : Nat → List Nat → List (List Nat)
+  | 0, _ => []
+  | _ + 1, [] => []
+  | fuel + 1, xs => xs.take n :: chunksOf n fuel (xs.drop n)
+
+/-- fixed order: one incremental decoder over all reads = decoding the whole stream -/
+def cmdDecode (_buffering : Nat) (bytes : List Nat) : List Nat := decLite bytes
+
+/-- pinned (F-C17c): every read decoded on its own -/
+def cmdDecodePinned (buffering : Nat) (bytes : List Nat) : List Nat :=
+  ((chunksOf buffering bytes.length bytes).map decLite).flatten
+
 /-! ## `Task.execute` -/
 
 structure TRes where
